@@ -173,8 +173,13 @@ def _gen_mode(rng, i, kind, tier):
         dev["combo"] = {"hold": rng.choice([0, 200]), "release": rng.choice([0, 100])}
     if rng.random() < 0.2:
         dev["timed_switch"] = {"time": 500}
-    if game_mode and rng.random() < 0.3:
-        dev["shot"] = {"delay_switch": rng.random() < 0.4}
+    if game_mode and rng.random() < 0.5:
+        # by_event: enabled/disabled by control events; the enable state then persists per player (persist_enable is
+        # the default for shots) and is RESTORED when the mode starts again for the same player
+        dev["shot"] = {"delay_switch": rng.random() < 0.4, "by_event": rng.random() < 0.65,
+                       "persist": rng.random() < 0.85}
+        if rng.random() < 0.4:
+            md["start_events"].append("ball_started")
     md["dev"] = dev
     pl = {}
     for p, prob in (("event", 0.5), ("queue_relay", 0.3), ("light", 0.3), ("show", 0.3), ("coil", 0.2),
@@ -202,6 +207,8 @@ def _event_pool(modes):
             plain += ["qe0_" + n, "qe1_" + n]
         if "timer" in d:
             plain += ["tstart_" + n, "tstop_" + n, "tpause_" + n, "tjump_" + n]
+        if "shot" in d and d["shot"].get("by_event"):
+            plain += ["shen_" + n, "shen_" + n, "shdis_" + n, "shrs_" + n, "shrst_" + n]
         p = md["players"]
         if "event" in p:
             plain += ["ep_" + n]
@@ -265,6 +272,23 @@ def gen_case(rng, tier, index):
             ops.append(["adv", rng.choice(ADV)])
         if ops[-1][0] != "adv" and rng.random() < 0.55:
             ops.append(["adv", rng.choice(ADV)])
+    # persisted device state across runs of a game mode for the SAME player: control event, mode stops (ball end or stop
+    # within the turn), mode starts again (state restored from the player), control events again, mode stops
+    for i, md in enumerate(modes):
+        sh = md["dev"].get("shot")
+        if kind != "game" or not sh or not sh.get("by_event") or rng.random() < 0.3:
+            continue
+        n_ = md["name"]
+        ev = lambda: rng.choice(["shen_", "shen_", "shen_", "shrs_", "shdis_"]) + n_      # noqa: E731
+        seq = [["post", "go%d" % i], ["adv", 0.05], ["post", "shen_" + n_], ["adv", 0.05]]
+        seq += [["drain"]] if rng.random() < 0.5 else [["post", "halt%d" % i], ["adv", rng.choice([0.05, 0.6])]]
+        seq += [["post", "go%d" % i], ["adv", 0.05], ["post", ev()], ["adv", rng.choice([0.0, 0.05])], ["post", ev()],
+                ["adv", 0.05]]
+        if rng.random() < 0.5:
+            seq += [["sw", "s_d", 1], ["adv", 0.05], ["sw", "s_d", 0], ["adv", 0.05]]
+        seq += [["post", "halt%d" % i] if rng.random() < 0.6 else ["drain"], ["adv", 0.3]]
+        at = rng.randint(0, len(ops))
+        ops[at:at] = seq
     return {"kind": kind, "modes": modes, "hooks": hooks, "ops": ops}
 
 
@@ -346,6 +370,13 @@ def _mode_cfg(md):
         sh = {"switch": "s_d"}
         if d["shot"]["delay_switch"]:
             sh["delay_switch"] = {"s_e": "500ms"}
+        if d["shot"].get("by_event"):
+            sh["enable_events"] = "shen_" + n
+            sh["disable_events"] = "shdis_" + n
+            sh["restart_events"] = "shrs_" + n
+            sh["reset_events"] = "shrst_" + n
+        if not d["shot"].get("persist", True):
+            sh["persist_enable"] = False
         cfg["shots"] = {"sh_" + n: sh}
     p = md["players"]
     if "event" in p:
